@@ -39,7 +39,7 @@ func (t *cgTy) sx() string {
 }
 
 func cgCon(h string, args ...*cgTy) *cgTy { return &cgTy{head: h, args: args} }
-func cgVar(n string) *cgTy               { return &cgTy{v: n} }
+func cgVar(n string) *cgTy                { return &cgTy{v: n} }
 
 // ground types (the hidden typing): g<i> is an opaque generic
 func (t *cgTy) eq(u *cgTy) bool {
